@@ -1075,6 +1075,29 @@ func (e *Engine) exec(st *State, fr *Frame, in ssa.Instruction) bool {
 			fr.env[in] = BvNot(x.(*Term))
 		case token.MUL:
 			fr.env[in] = e.loadPtr(st, x.(PtrVal))
+		case token.ARROW:
+			ch := x.(PtrVal)
+			if ch.obj == 0 {
+				abort("unsupported", "receive from a nil channel (blocks forever)")
+			}
+			co := st.hget(ch.obj).(ChanObj)
+			var v Val
+			ok := True
+			if len(co.buf) > 0 {
+				v = co.buf[0]
+				co.buf = append([]Val(nil), co.buf[1:]...)
+				st.heap.set(ch.obj, co)
+			} else if co.closed {
+				v = e.zero(in.X.Type().Underlying().(*types.Chan).Elem())
+				ok = False
+			} else {
+				abort("unsupported", "channel receive that would block in the sequentialised goroutine model")
+			}
+			if in.CommaOk {
+				fr.env[in] = TupleVal{[]Val{v, ok}}
+			} else {
+				fr.env[in] = v
+			}
 		default:
 			abort("unsupported", "unop %s", in.Op)
 		}
@@ -1411,7 +1434,60 @@ func (e *Engine) exec(st *State, fr *Frame, in ssa.Instruction) bool {
 	case *ssa.MultiConvert:
 		abort("unsupported", "MultiConvert")
 	case *ssa.Go:
-		abort("unsupported", "go statement")
+		// Sequentialised goroutines: the new goroutine runs to completion at the
+		// point where it is spawned (one legal schedule when it does not wait for
+		// anything a later statement of the spawner provides; a channel operation
+		// or WaitGroup.Wait that would block ends the path as unsupported).
+		e.models["go statement: the goroutine runs to completion where it is spawned (one legal schedule)"]++
+		cc := in.Common()
+		var args []Val
+		for _, a := range cc.Args {
+			args = append(args, e.get(st, fr, a))
+		}
+		var fv FuncVal
+		if cc.IsInvoke() {
+			recv := e.get(st, fr, cc.Value).(IfaceVal)
+			if recv.t == nil {
+				abort("panic", "go on nil interface")
+			}
+			fv = FuncVal{fn: e.lookupMethod(recv.t, cc.Method)}
+			args = append([]Val{recv.v}, args...)
+		} else if sf := cc.StaticCallee(); sf != nil {
+			fv = FuncVal{fn: sf}
+			if mc, ok := cc.Value.(*ssa.MakeClosure); ok {
+				fv = e.get(st, fr, mc).(FuncVal)
+			}
+		} else {
+			fv = e.get(st, fr, cc.Value).(FuncVal)
+		}
+		if fv.fn == nil || fv.native != nil {
+			abort("unsupported", "go statement on a modelled function")
+		}
+		if _, ok := e.intercept[fv.fn.String()]; ok {
+			abort("unsupported", "go statement on a modelled function")
+		}
+		if len(fv.fn.Blocks) == 0 && fv.fn.Pkg != nil {
+			fv.fn.Pkg.Build()
+		}
+		e.pushFrame(st, fv.fn, args, fv.bind, nil)
+		return false
+	case *ssa.MakeChan:
+		n := e.needInt(st, e.get(st, fr, in.Size), "channel size")
+		fr.env[in] = PtrVal{obj: st.alloc(ChanObj{cap: n})}
+	case *ssa.Send:
+		ch := e.get(st, fr, in.Chan).(PtrVal)
+		if ch.obj == 0 {
+			abort("unsupported", "send on a nil channel (blocks forever)")
+		}
+		co := st.hget(ch.obj).(ChanObj)
+		if co.closed {
+			abort("panic", "send on closed channel")
+		}
+		if len(co.buf) >= co.cap {
+			abort("unsupported", "channel send that would block in the sequentialised goroutine model")
+		}
+		co.buf = append(append([]Val(nil), co.buf...), e.get(st, fr, in.X))
+		st.heap.set(ch.obj, co)
 	default:
 		abort("unsupported", "instr %T", in)
 	}
@@ -1906,12 +1982,33 @@ func (e *Engine) builtin(st *State, fr *Frame, name string, cc *ssa.CallCommon, 
 			if x.obj == 0 {
 				return ConstBV(64, 0)
 			}
+			if co, ok := st.hget(x.obj).(ChanObj); ok && len(x.path) == 0 {
+				return ConstBV(64, uint64(len(co.buf)))
+			}
 			if a, ok := e.load(st, x).(ArrayVal); ok {
 				return ConstBV(64, uint64(len(a.e)))
 			}
 		}
+	case "close":
+		ch := args[0].(PtrVal)
+		if ch.obj == 0 {
+			abort("panic", "close of nil channel")
+		}
+		co := st.hget(ch.obj).(ChanObj)
+		if co.closed {
+			abort("panic", "close of closed channel")
+		}
+		co.closed = true
+		st.heap.set(ch.obj, co)
+		return nil
 	case "cap":
 		switch x := args[0].(type) {
+		case PtrVal:
+			if x.obj != 0 {
+				if co, ok := st.hget(x.obj).(ChanObj); ok {
+					return ConstBV(64, uint64(co.cap))
+				}
+			}
 		case SliceVal:
 			return ConstBV(64, uint64(x.cap))
 		case ArrayVal:
@@ -1940,9 +2037,19 @@ func (e *Engine) builtin(st *State, fr *Frame, name string, cc *ssa.CallCommon, 
 		}
 		cur := e.sliceElems(st, sl)
 		nl := len(cur) + len(add)
+		// capacity growth as in runtime.growslice (without the rounding up to
+		// allocation size classes): spare capacity is what lets two slice headers
+		// that share a backing array overwrite each other's appends
 		nc := nl
-		if nl > 8 {
-			nc = nl + nl/2 // amortise repeated appends
+		if oc := sl.cap; nl <= 2*oc {
+			if oc < 256 {
+				nc = 2 * oc
+			} else {
+				nc = oc + (oc+3*256)/4
+			}
+		}
+		if nc < nl {
+			nc = nl
 		}
 		ne := make([]Val, nc)
 		copy(ne, cur)
